@@ -160,7 +160,7 @@ export function* generate({ tier, seed }) {
     for (const shape of SHAPES) for (const kind of (RUNTIME_SHAPES.has(shape) ? KINDS : ['vnode'])) for (const vs of VSLOTS) {
       yield emit('boundImport', shape, kind, vs, 'arrowExpr', OPTS);
     }
-    for (const c of rng.shuffle(all).slice(0, 900)) yield emit(...c, [rng.pick(OPTS), rng.pick(OPTS)]);
+    for (const c of rng.shuffle(all).slice(0, 6000)) yield emit(...c, [rng.pick(OPTS), rng.pick(OPTS)]);
   }
 }
 
@@ -239,7 +239,7 @@ export async function check(group, records) {
 
 export function meta({ tier }) {
   return {
-    rule: 'G-SLOT: host {bound import, unbound, member, Teleport} x child shape (16) x runtime kind of an identifier/call child value (7) x v-slots {absent, identifier, object literal} x enclosing context (6) x {enableObjectSlots, optimize}; ' + (tier === 'thorough' ? 'full product' : 'full shape x kind x v-slots product on one host plus a seeded sample of 900 of the rest') + '. Every delivered slot is invoked twice; results and probe traces are compared with the reference. distinct_nontrivial = distinct (host, shape, kind, v-slots, context, options) with >= 1 child.',
+    rule: 'G-SLOT: host {bound import, unbound, member, Teleport} x child shape (16) x runtime kind of an identifier/call child value (7) x v-slots {absent, identifier, object literal} x enclosing context (6) x {enableObjectSlots, optimize}; ' + (tier === 'thorough' ? 'full product' : 'full shape x kind x v-slots product on one host plus a seeded sample of 6000 of the rest') + '. Every delivered slot is invoked twice; results and probe traces are compared with the reference. distinct_nontrivial = distinct (host, shape, kind, v-slots, context, options) with >= 1 child.',
     exhaustive: tier === 'thorough' ? ['host x shape x kind x v-slots x context x 4 option sets'] : ['shape x kind x v-slots x 4 option sets on a bound-import host in arrow context'],
     assumptions: ['v-slots entries are required beside a wrapped or function `default`; for an object-literal child both readings are accepted', 'runtime pass-through (child value is a slot function or plain non-vnode object) drops v-slots, as the statement says the value is passed through'],
   };
